@@ -205,7 +205,7 @@ DEFAULT_WEIGHTS = {
     "add_page": 6, "add_pages": 2, "add_links": 4, "batch": 3,
     "create": 3, "delete": 1, "addp": 2, "rmp": 1, "mvp": 1,
     "rule": 1, "rmrule": 1, "reopen": 1, "clear": 0.6,
-    "bad_delete": 0.5, "bad_rmp": 0.4, "bad_mvp": 0.3,
+    "bad_delete": 0.5, "bad_rmp": 0.4, "bad_mvp": 0.3, "overwrite_open": 0.3,
 }
 
 
@@ -364,14 +364,35 @@ def gen_history(rng, cfg, pool, text, nops, weights=None, allow_uncrawled_pages=
                 continue
             ps.insert(rng.randint(0, len(ps)), bad)
             ops.append({"op": "bad_delete", "of": of, "prefixes": ps})
-        elif k == "bad_rmp" and len(set(m.we.values())) >= 2:
-            p = rng.choice(sorted(m.we))
-            other = rng.choice(sorted(q for q in m.we if m.we[q] != m.we[p]))
-            ops.append({"op": "bad_rmp", "prefix": p, "of": other})
-        elif k == "bad_mvp" and len(set(m.we.values())) >= 2:
-            p = rng.choice(sorted(m.we))
-            other = rng.choice(sorted(q for q in m.we if m.we[q] != m.we[p]))
-            ops.append({"op": "bad_mvp", "prefix": p, "of": other, "wrong_src_of": other})
+        elif k in ("bad_rmp", "bad_mvp") and m.we:
+            if rng.random() < 0.5 and len(set(m.we.values())) >= 2:
+                # a prefix attached to another webentity than the one named
+                p = rng.choice(sorted(m.we))
+                other = rng.choice(sorted(q for q in m.we if m.we[q] != m.we[p]))
+            else:
+                # a prefix that carries no webentity itself, named with the webentity of a prefix above it
+                other = rng.choice(sorted(m.we))
+                p = other + rng.choice(PATHS)
+                if rng.random() < 0.5:
+                    below = sorted(n_ for n_ in m.nodes if n_.startswith(other) and n_ != other and n_ not in m.we)
+                    if below:
+                        p = rng.choice(below)
+                if p in m.we or not rules_ok(p):
+                    continue
+                m.ins(p)
+            ops.append({"op": k, "prefix": p, "of": other})
+        elif k == "overwrite_open" and cfg["backend"] == "file":
+            # the folder opened again with overwrite=True: a new, empty index with the given rules
+            newrules = []
+            seen = set()
+            for _ in range(rng.randint(0, 2)):
+                a = some_prefix(rng, pick(), 2, 4)
+                if a.startswith(b"s:") and a not in seen:
+                    seen.add(a)
+                    newrules.append([a, rng.choice(ANCHOR_RULES[:4])])
+            newdef = rng.choice(["domain", "subdomain"])
+            ops.append({"op": "overwrite_open", "default": newdef, "rules": newrules})
+            m.clear(RX[newdef], {a: RX[x] for a, x in newrules})
         elif k == "reopen" and cfg["backend"] == "file":
             ops.append({"op": "reopen"})
         elif k == "clear":
